@@ -335,8 +335,9 @@ impl GameEnv {
                     if tok_sig.map(|s| s.verify(&pk, &Message::new(b))).unwrap_or(false) { none_pair = false; }
                 }
             }
+            let bases_differ = bincode::serialize(&csig).unwrap()[..48] != bincode::serialize(&tok).unwrap()[..48];
             sigs = json!({"close_sig_on_hidden_close_state": vc, "token_on_hidden_state": vs, "no_single_slot_variation": none_other,
-                          "no_two_slot_compensation": none_pair});
+                          "no_two_slot_compensation": none_pair, "closing_signature_and_pay_token_have_different_bases": bases_differ});
         }
         json!({"ev": "game", "proof": "establish", "id": st["id"], "strategy": st["name"], "accepted": accepted, "atoms": atoms,
                "truth": truth_after_sim(truth, &final_hidden_s, &final_hidden_c, &base_state, &base_close),
@@ -889,8 +890,13 @@ impl GameEnv {
             // complete the payment with the REAL pair of the old state and the attacker's blinding factor
             let pair: zkabacus_crypto::revlock::RevocationPair = bincode::deserialize(&info.old_pair).unwrap();
             let rbf: zkabacus_crypto::revlock::RevocationLockBlindingFactor = bincode::deserialize(&bincode::serialize(&bf_rl).unwrap()).unwrap();
+            let csig_bytes = bincode::serialize(&csig).unwrap();
+            let mut bases_differ = true;
             let completes = match unrev.complete_payment(&mut rng, &pair, &rbf) {
                 Ok(tok) => {
+                    // two merchant signatures on tuples differing in one slot must not share their base sigma1
+                    // (their quotient would be sigma1^(y_1 * difference): the token could be moved to any nonce)
+                    bases_differ = bincode::serialize(&tok).unwrap()[..48] != csig_bytes[..48];
                     let ts = unblind_bytes(&bincode::serialize(&tok).unwrap(), bf_st);
                     ts.map(|s| s.verify(&pk, &Message::new(fin_st))).unwrap_or(false)
                 }
@@ -907,7 +913,8 @@ impl GameEnv {
                 }
             }
             sigs = json!({"close_sig_on_hidden_close_state": vc, "no_single_slot_variation": none_other, "no_two_slot_compensation": none_pair,
-                          "old_pair_completes_iff_committed": completes == (fin_rl == info.old[2])});
+                          "old_pair_completes_iff_committed": completes == (fin_rl == info.old[2]),
+                          "closing_signature_and_pay_token_have_different_bases": bases_differ});
         }
         let _ = (&mut z_st, &mut z_cl, z_rl, cfg);
         json!({"ev": "game", "proof": "pay", "id": st["id"], "strategy": st["name"], "accepted": accepted, "atoms": atoms,
